@@ -173,11 +173,27 @@ def run(ctx: Context) -> None:
     fixture = ast.parse("def f(instr, cond):\n    return instr.clbits.index(cond[0])\ndef g(qc, q):\n    return qc.find_bit(q).index\n")
     if [len(local_positions(f_)) for f_ in fixture.body] != [1, 0]:
         raise AnalysisError("C19d: the rule does not behave on its inline fixture")
-    n_res = sum(1 for c in ast.walk(m.tree) if isinstance(c, ast.Call) and isinstance(c.func, ast.Attribute) and c.func.attr == "find_bit") \
-        + sum(1 for a_ in ast.walk(m.tree) if isinstance(a_, ast.Attribute) and a_.attr == "_index")
-    ctx.require_floor("global bit-index resolutions (find_bit / _index) in the dual-rail module", n_res, 1)
+    n_res = sum(1 for c in ast.walk(m.tree) if isinstance(c, ast.Call) and isinstance(c.func, ast.Attribute) and c.func.attr == "find_bit")
+    ctx.require_floor("global bit-index resolutions (find_bit) in the dual-rail module", n_res, 1)
     bad = local_positions(m.tree)
-    ctx.obligation("C19d", f"{MOD}|bits-resolved-globally", not bad, resolutions=n_res)
+    # a Bit's own `_index` / `index` attribute is its position inside its register, not in the circuit: with several quantum or
+    # classical registers it addresses another qubit / another measurement.  `find_bit(bit).index` (attribute of the BitLocations
+    # returned by a call) is the circuit-global one.
+    def register_local(tree):
+        return [a_ for a_ in ast.walk(tree) if isinstance(a_, ast.Attribute) and isinstance(a_.ctx, ast.Load) and a_.attr in ("_index", "index")
+                and not (isinstance(a_.value, ast.Call) and isinstance(a_.value.func, ast.Attribute) and a_.value.func.attr == "find_bit")
+                and not isinstance(a_.value, ast.Call)
+                and a_.attr == "_index" or (isinstance(a_, ast.Attribute) and a_.attr == "_register")]
+    fx = ast.parse("def f(cond):\n    return cond[0]._index\ndef g(qc, q):\n    return qc.find_bit(q).index\n")
+    if [len(register_local(f_)) for f_ in fx.body] != [1, 0]:
+        raise AnalysisError("C19d: the register-local rule does not behave on its inline fixture")
+    loc = register_local(m.tree)
+    ctx.obligation("C19d", f"{MOD}|bits-resolved-globally", not bad and not loc, resolutions=n_res)
+    for a_ in loc:
+        ctx.violation("C19d", f"{MOD}|register-local-bit-index|{norm(a_)[:40]}", m.path, a_.lineno,
+                      f"`{norm(a_)[:60]}` is the position of the bit inside its own register, not its index in the circuit: in a circuit built "
+                      f"from several quantum / classical registers the gate or the condition addresses another qubit / another measurement "
+                      f"(resolve with `find_bit(bit).index`)", norm(a_)[:100])
     for c in bad:
         ctx.violation("C19d", f"{MOD}|instruction-local-bit-position", m.path, c.lineno,
                       f"`{norm(c)[:70]}` is the position of the bit inside this instruction's own operand list, not its index in the circuit: an "
